@@ -280,6 +280,10 @@ def materialise(p: Dict[str, Any], base: Path) -> Path:
         f = src / rel
         f.parent.mkdir(parents=True, exist_ok=True)
         f.write_text(text, encoding="utf-8")
+    for rel, text in p.get("templates", {}).items():
+        f = base / "tpl" / rel
+        f.parent.mkdir(parents=True, exist_ok=True)
+        f.write_text(text, encoding="utf-8")
     return src
 
 
@@ -322,6 +326,10 @@ def corpus_projects() -> List[Dict[str, Any]]:
         proj("classIndex", {"classIndex.py": '"""A module named like a summary page."""\nclass K:\n    """k"""\n'}, ["classIndex.py"], [], "123456789012"),
         proj("index", {"index.py": '"""A module called index."""\ndef f():\n    """f"""\n'}, ["index.py"], [], "2147483647"),
         proj("hidden-root", {"hid.py": '"""A hidden root."""\nx = 1\n'}, ["hid.py"], ["--privacy=HIDDEN:hid"], str(EPOCH)),
+        # open finding listing-order:template-dir-case-collision: a --template-dir with files whose names differ in case only
+        dict(proj("template-case-collision", {"m.py": "x = 1\n"}, ["m.py"], ["--template-dir=@TPL@"], "1"),
+             templates={"Extra.css": "/* UPPER */\n", "extra.css": "/* lower */\n", "My.css": "A\n", "my.css": "b\n", "plain.txt": "t\n"},
+             modes=["sorted", "reverse"]),
         # a SOURCE_DATE_EPOCH the tree refuses
         proj("epoch-not-a-number", {"m.py": "x = 1\n"}, ["m.py"], [], "abc"),
     ]
@@ -417,7 +425,7 @@ def run_build(p: Dict[str, Any], src: Path, out: Path, hashseed: int, mode: str,
     env = subprocess_env(hashseed)
     env.pop("SOURCE_DATE_EPOCH", None)
     env["TZ"] = "UTC"
-    args = [a.replace("@SRC@", str(src)) for a in p["args"]]
+    args = [a.replace("@SRC@", str(src)).replace("@TPL@", str(src.parent / "tpl")) for a in p["args"]]
     epoch: Optional[str] = None
     if tag == "bt":
         args.append("--buildtime=" + BUILDTIME)
@@ -476,7 +484,9 @@ def oracle(ctx: Ctx, p: Dict[str, Any], results: Dict[Tuple[int, str, str], List
            seeds: List[int], modes: List[str]) -> None:
     """byte comparison of every build with the reference build; failures classified by cause"""
     multi_unnamed = len(p["roots"]) >= 2 and p.get("explicit") is None
-    inp = {k: p[k] for k in ("id", "files", "roots", "args", "kind") if k in p}
+    inp = {k: p[k] for k in ("id", "files", "roots", "args", "kind", "templates", "modes") if k in p}
+    tnames = [os.path.basename(t) for t in p.get("templates", {})]
+    template_collision = len({t.lower() for t in tnames}) < len(tnames)
     if p.get("srcroot"):
         inp["srcroot"] = p["srcroot"]
     ok_exit = (0, 2, 3)
@@ -547,8 +557,9 @@ def oracle(ctx: Ctx, p: Dict[str, Any], results: Dict[Tuple[int, str, str], List
         if mode != modes[0]:
             k = diff_kind(base_same_seed["post"], first["post"])
             if k:
-                ctx.fail("listing-order:" + k, inp, "hash seed %d: listing order %s vs %s changes %s" % (
-                    hs, modes[0], mode, diff_snap(base_same_seed["post"], first["post"])[:4]))
+                ctx.fail("listing-order:" + ("template-dir-case-collision" if template_collision else k), inp,
+                         "hash seed %d: listing order %s vs %s changes %s" % (
+                             hs, modes[0], mode, diff_snap(base_same_seed["post"], first["post"])[:4]))
         # (a) hash seed, same listing order
         elif hs != seeds[0]:
             k = diff_kind(ref["post"], first["post"])
@@ -590,7 +601,10 @@ def oracle_buildtime_pair(ctx: Ctx, p: Dict[str, Any], inp: Dict[str, Any], resu
                 ctx.fail("exit-status-differs", inp, "--buildtime builds exit %s" % sorted({r["exit"] for r in bts}))
             return
         k = diff_kind(bts[0]["post"], bts[1]["post"])
-        if k and not already:       # otherwise the cause has been named by the SOURCE_DATE_EPOCH matrix
+        tn = [os.path.basename(t) for t in p.get("templates", {})]
+        if k and len({t.lower() for t in tn}) < len(tn) and bts[0]["mode"] != bts[1]["mode"]:
+            ctx.fail("listing-order:template-dir-case-collision", inp, "--buildtime builds under two listing orders differ in %s" % diff_snap(bts[0]["post"], bts[1]["post"])[:4])
+        elif k and not already:       # otherwise the cause has been named by the SOURCE_DATE_EPOCH matrix
             n0, n1 = bts[0]["side"].get("projectname"), bts[1]["side"].get("projectname")
             if multi_unnamed and n0 != n1:
                 ctx.fail("hashseed:project-name-guess", inp, "--buildtime builds guess %r and %r" % (n0, n1))
@@ -1157,6 +1171,7 @@ def run_projects(ctx: Ctx, st: Streams, projects: List[Dict[str, Any]], scratch:
     mats = []
     for n, p in enumerate(projects):
         seeds, modes = matrix(ctx.seed, ctx.quick, n)
+        modes = p.get("modes", modes)
         mats.append((seeds, modes))
         base = scratch / ("%s_%d" % (p["id"].replace("/", "_").replace("+", "_"), n))
         base.mkdir(parents=True)
